@@ -143,6 +143,7 @@ pub enum Probe {
     EntryOrDefault,
     IndexOp,
     FromArray,
+    TryReserveGiant,
     _Count,
 }
 pub const NPROBE: usize = Probe::_Count as usize;
@@ -226,6 +227,7 @@ pub const PROBE_NAMES: [&str; NPROBE] = [
     "entry_or_default",
     "index_op",
     "from_array",
+    "try_reserve_giant",
 ];
 
 #[derive(Clone, Debug)]
